@@ -1261,7 +1261,8 @@ func (s *Server) handleInputCommand(client *Client, msg *Message) error {
 		}
 	case "get", "keys", "scan", "nearby", "within", "intersects", "hooks",
 		"chans", "search", "ttl", "bounds", "server", "info", "type", "jget",
-		"evalro", "evalrosha", "role", "fget", "exists", "fexists":
+		"evalro", "evalrosha", "role", "fget", "exists", "fexists",
+		"test", "stats":
 		// read operations
 		s.mu.RLock()
 		defer s.mu.RUnlock()
